@@ -2,7 +2,7 @@
 Lean: NutsProofs.Props.C06 over NutsModel.C06.Admit + regenerated facts.
 Correspondence: in-package harness on the real parser / state (bbolt): parser mutants, DAG histories with defects,
 all interleavings of concurrent Adds.  Direct oracles are evaluated on the implementation's own outputs."""
-import json, os, re
+import base64, json, os, re
 from collections import Counter
 from fractions import Fraction
 
@@ -13,7 +13,7 @@ REQUIRED = ["parse_sound", "last_member_decides", "lc_exact", "lc_exact_fails_wi
             "admitted_signature", "add_idempotent", "rejected_no_trace", "dag_inv", "concurrent_adds_serialise",
             "concurrent_adds_keep_invariant", "created_tx_admissible", "notified_exactly_once",
             "fact_allowed_algos", "fact_allowed_versions", "fact_header_names", "fact_parse_steps",
-            "fact_signature_count_checked", "fact_lc_strict", "fact_jwk_public_only", "embedded_key_is_public", "fact_prev_verifier", "fact_verifier_order",
+            "fact_signature_count_checked", "fact_lc_strict", "fact_jwk_public_only", "embedded_key_is_public", "fact_strict_framing", "accepted_bytes_are_a_jws_serialization", "fact_prev_verifier", "fact_verifier_order",
             "fact_signature_verifier", "fact_add_two_phases", "fact_root_check"]
 
 HEX64 = re.compile(r"^[0-9a-fA-F]{64}$")
@@ -32,6 +32,28 @@ def members(jws):
     for k, v in jws.get("members", []):
         d[k] = v  # last wins (jwx)
     return d
+
+
+B64URL = re.compile(rb"^[A-Za-z0-9_-]*$")
+
+
+def framing_ok(inp_b64):
+    """RFC 7515: a JWS is either the JSON serialization or exactly three unpadded base64url segments (checked on the bytes themselves)"""
+    raw = base64.b64decode(inp_b64)
+    if raw.lstrip()[:1] == b"{":
+        return True
+    parts = raw.split(b".")
+    if len(parts) != 3:
+        return False
+    for p in parts:
+        if not B64URL.match(p) or len(p) % 4 == 1:
+            return False
+        try:
+            if base64.urlsafe_b64encode(base64.urlsafe_b64decode(p + b"=" * (-len(p) % 4))).rstrip(b"=") != p:
+                return False   # non-zero trailing bits: not the canonical encoding
+        except Exception:
+            return False
+    return True
 
 
 def wellformed(jws, algos):
@@ -196,6 +218,9 @@ def run(ctx):
         breaches = wellformed(jws, algos)
         if breaches:
             violate("C06:parser-accepted-malformed:" + breaches[0], f"ParseTransaction accepted a transaction that is not well-formed: {breaches}", i)
+        if not framing_ok(op["call"]["in"]):
+            violate("C06:not-a-jws-serialization", "ParseTransaction accepted bytes that are not a JWS serialization (RFC 7515: three unpadded base64url "
+                    "segments, or JSON): e.g. further segments after the signature are ignored, so one signed transaction has many refs", i)
         m = members(jws)
         d = parse_line(line)
         lc = jval(m.get("lc", {}))
@@ -207,7 +232,7 @@ def run(ctx):
         ver = jval(m.get("ver", {}))
         if ver is not None and ver.denominator != 1:
             ver_trunc += 1
-    ctx.oblige("oracle:parser-accepts-only-wellformed(impl)", not any(s.startswith("C06:parser") or s in ("C06:lc-not-exact", "C06:embedded-private-jwk") for s in seen_sig),
+    ctx.oblige("oracle:parser-accepts-only-wellformed(impl)", not any(s.startswith("C06:parser") or s in ("C06:lc-not-exact", "C06:embedded-private-jwk", "C06:not-a-jws-serialization") for s in seen_sig),
                f"{n_parse_ok} accepted inputs re-checked")
     if ver_trunc:
         ctx.notes.append(f"{ver_trunc} accepted inputs carried a non-integral `ver` (truncated by Version(float64)); the property does not speak about it — modelled, not flagged")
@@ -281,6 +306,9 @@ def run(ctx):
                     breaches = wellformed(jws, algos)
                     if breaches:
                         violate("C06:admitted-malformed:" + breaches[0], f"admitted transaction is not well-formed: {breaches}", i)
+                    if not framing_ok(c["in"]):
+                        violate("C06:not-a-jws-serialization", "bytes that are not a JWS serialization were admitted as a transaction "
+                                "(the same signed content enters the DAG again under another ref)", i)
                     clock = int(new[0][0])
                     byref = {r: int(cl) for cl, r in lcs_prev}
                     pv = [el.get("s", "")[:8].lower() for el in m.get("prevs", {}).get("v", [])]
